@@ -68,3 +68,13 @@ Proof.
   destruct (shape_schema (resolve (row_shape r))) as [mk|] eqn:E; [|discriminate].
   exists mk. split; [reflexivity|]. intros g0. exact (shape_local _ mk g0 E).
 Qed.
+
+(* non-vacuity: three rows of the generated table *)
+Definition rule_rows_example : list (string * string * string * rule_shape * bool * list string) :=
+  [("LongSentences", "LongSentences", "long_sentences.rs", IterSentences, false, []);
+   ("SpellCheck", "SpellCheck", "spell_check.rs", KindFilter, false, []);
+   ("Itself", "MapPhraseLinter", "map_phrase_linter.rs", ViaPatternLinter, true, [])]%string.
+Lemma rule_shapes_example : incl rule_rows_example struct_rules /\ length struct_rules = 74.
+Proof.
+  split; [|vm_compute; reflexivity]. intros r [<-|[<-|[<-|[]]]]; vm_compute; tauto.
+Qed.
